@@ -66,8 +66,9 @@ type Topology struct {
 	Redirects map[string]int  // counts per kind: moved, ask, crossslot
 	Errors    []ClusterExec   // error replies sent (redirects and others)
 	// Misdirected: commands an importing node served under ASKING for keys that had not been moved to it
-	Misdirected []string
-	gseq      int
+	Misdirected     []string
+	MisdirectedKeys []string // the key of each entry
+	gseq            int
 }
 
 type clusterNode struct {
@@ -194,6 +195,7 @@ func (c *clusterNode) route(s *Server, ss *Session, name string, args [][]byte) 
 		// may send ASKING only for the command the owner answered ASK to - i.e. for keys that live here already
 		for _, k := range keys {
 			if !t.Moved[string(k)] {
+				t.MisdirectedKeys = append(t.MisdirectedKeys, string(k))
 				t.Misdirected = append(t.Misdirected, fmt.Sprintf("node %d (importing slot %d) served %s %q under ASKING although the key still lives on node %d, which never redirected it", c.self, slot, name, k, owner))
 				break
 			}
